@@ -366,6 +366,12 @@ func (r *rewriter) rewriteSelect(c *astutil.Cursor, s *ast.SelectStmt) {
 		})
 		idx++
 	}
+	// Select only returns -1 or a clause index; the default clause makes the switch a
+	// terminating statement whenever the original select was one.
+	clauses = append(clauses, &ast.CaseClause{Body: []ast.Stmt{&ast.ExprStmt{X: &ast.CallExpr{
+		Fun:  ast.NewIdent("panic"),
+		Args: []ast.Expr{&ast.BasicLit{Kind: token.STRING, Value: `"verifsim: unreachable select index"`}},
+	}}}})
 	r.st.Select++
 	hd := "false"
 	if hasDefault {
@@ -503,10 +509,14 @@ func main() {
 	pkgs := flag.String("pkgs", "", "comma separated package patterns")
 	noMap := flag.String("nomap", "", "comma separated package path suffixes whose map ranges are left alone")
 	copyMode := flag.Bool("copy", false, "write files into -out mirroring the package directory (for copied dependencies) instead of an overlay")
+	prefix := flag.String("prefix", "", "only files below this directory are rewritten, and paths are taken relative to it (default: -dir)")
 	flag.Parse()
 	if *out == "" || *pkgs == "" {
 		fmt.Fprintln(os.Stderr, "usage: instrument -dir D -out O -pkgs p1,p2")
 		os.Exit(2)
+	}
+	if *prefix == "" {
+		*prefix = *dir
 	}
 	cfg := &packages.Config{
 		Mode: packages.NeedName | packages.NeedFiles | packages.NeedCompiledGoFiles | packages.NeedSyntax |
@@ -536,7 +546,7 @@ func main() {
 		}
 		for i, f := range p.Syntax {
 			fname := p.CompiledGoFiles[i]
-			if !strings.HasSuffix(fname, ".go") || !strings.HasPrefix(fname, *dir) {
+			if !strings.HasSuffix(fname, ".go") || !strings.HasPrefix(fname, *prefix) {
 				continue
 			}
 			r := &rewriter{fset: p.Fset, info: p.TypesInfo, file: f, fname: fname, st: st, noMap: nm,
@@ -547,7 +557,7 @@ func main() {
 				fmt.Fprintln(os.Stderr, "print:", fname, err)
 				os.Exit(2)
 			}
-			rel, _ := filepath.Rel(*dir, fname)
+			rel, _ := filepath.Rel(*prefix, fname)
 			dst := filepath.Join(*out, rel)
 			os.MkdirAll(filepath.Dir(dst), 0o755)
 			if err := os.WriteFile(dst, src, 0o644); err != nil {
